@@ -163,8 +163,12 @@ under an arm that tested the variable for that variant, `match` as Core has it a
 of the printing / `*_to_string` builtins, closures, top-level functions as values (the annotation must be the
 instance of the signature that `matchTy` finds), calls of any fragment expression of function type (closure, local,
 top-level function) annotated with exactly `(argument types) -> result`, trait calls on receivers annotated with a
-concrete type whose dispatch row has the annotated signature.  Missing: `Ref` / `Vec` / arrays (need a store
-typing), trait objects, `go`, builtins used as values, trait calls on receivers of parametric type (need injectivity of the dispatch key),
+concrete type whose dispatch row has the annotated signature, and — when the dispatch table passes `implsOk` — trait
+calls on ANY receiver, in particular `x: T` under a bound `T: Tr` (the only form real Core dumps contain): every row's
+function has a first parameter of a keyable type (scalar of a real width, or a non-generic enum / struct of `S`) with the
+row's key and the trait's method signature at that `Self`; no nominal type is named like a scalar key; `key_determines`
+(`Lemmas/ValTyKey.lean`): the key of a well-typed value determines its type among the keyable types.  Missing: `Ref` / `Vec` / arrays (need a store
+typing), trait objects, `go`, builtins used as values, impls for instances of generic types (`impl Tr for Opt[int32]`: `Sem`'s key is the head name only), trait calls on receivers of parametric type (need injectivity of the dispatch key),
 ANF tags.  Progress (a fragment program is never `stuck`) is not proved.
 
 What `Wt` alone was too weak for (each is a decidable conjunct of `okE`, evaluated on every real Core dump):
@@ -175,7 +179,7 @@ relates the dispatch table to the implementing function (`dispatchOk`); (4) call
 to the wildcard array length, the fragment asks for the exact instance. -/
 theorem sem_preserves_types_partial (S : Sig) (P : Prog) (hS : SigClosed S) (hP : okProg S P = true) (fuel : Nat)
     {e : Expr} {ρ : Env} {w : World} {Γ : TyEnv} {K : Know} {θ : Subst} {v : Val} {w' : World}
-    (hfrag : okE P Γ K e = true) (hwt : wt S Γ e = true) (hρ : ET S P θ ρ Γ) (hK : KOk K ρ)
+    (hfrag : okE S P Γ K e = true) (hwt : wt S Γ e = true) (hρ : ET S P θ ρ Γ) (hK : KOk K ρ)
     (hev : eval fuel P ρ w e = .ok v w') : VT S P v (substTy θ (getTy e)) := by
   simp only [wt, List.isEmpty_iff] at hwt
   exact (sound_all hS hP fuel).expr hfrag hwt hρ hK hev
@@ -197,7 +201,7 @@ the row of the STATIC key, the one `Model/Mono.lean` names (`traitImplFnName tr 
 theorem traitcall_static_dispatch (S : Sig) (P : Prog) (hS : SigClosed S) (hP : okProg S P = true) (fuel : Nat)
     {recv : Expr} {args : List Expr} {tr m : String} {ty : Ty} {ρ : Env} {w w1 : World} {Γ : TyEnv} {K : Know}
     {θ : Subst} {rv : Val}
-    (hfrag : okE P Γ K recv = true) (hwt : wt S Γ recv = true) (hρ : ET S P θ ρ Γ) (hK : KOk K ρ)
+    (hfrag : okE S P Γ K recv = true) (hwt : wt S Γ recv = true) (hρ : ET S P θ ρ Γ) (hK : KOk K ρ)
     (hc : concreteTy (substTy θ (getTy recv)) = true) (hev : eval fuel P ρ w recv = .ok rv w1) :
     valKey rv = tyKey (substTy θ (getTy recv)) ∧
     eval (fuel + 1) P ρ w (.traitCall tr m ty recv args) =
@@ -234,7 +238,8 @@ def tsSig : Sig :=
 
 /-- `fn ident[T](x: T) -> T { x }`, `impl A for S { fn foo(self) -> string { int32_to_string(self.n) } }`,
     `fn unwrap(o: Opt[int32]) -> int32 { match o { None => 0, Some(v) => v } }`,
-    `fn main() { let s = ident(S { n: unwrap(Some(7)) }); string_println(A::foo(s)) }` -/
+    `fn viaA[T: A](x: T) -> string { A::foo(x) }` (an `ETraitCall` on a receiver of parametric type, as in every real dump),
+    `fn main() { let s = ident(S { n: unwrap(Some(7)) }); string_println(A::foo(s)); string_println(viaA(s)) }` -/
 def tsProg : Prog :=
   { impls := [("A", "S", "foo", "trait_impl#A#S#foo")]
     fns := [
@@ -242,6 +247,8 @@ def tsProg : Prog :=
       { name := "trait_impl#A#S#foo", generics := [], params := [("self", .struct "S")], ret := .string,
         body := .call .string (.var "int32_to_string" (.func [.int 32 true] .string))
                   [.cget (.struct "S") 0 (.int 32 true) (.var "self" (.struct "S"))] },
+      { name := "viaA", generics := ["T"], params := [("x", .param "T")], ret := .string,
+        body := .traitCall "A" "foo" .string (.var "x" (.param "T")) [] },
       { name := "unwrap", generics := [], params := [("o", .app (.enum "Opt") [.int 32 true])], ret := .int 32 true,
         body := .matchE (.int 32 true) (.var "o" (.app (.enum "Opt") [.int 32 true]))
           [.mk (.constr (.enum "Opt" "None" 0) (.app (.enum "Opt") [.int 32 true]) []) (.prim (.int 32 true 0)),
@@ -252,14 +259,16 @@ def tsProg : Prog :=
                   [.constr (.struct "S") (.struct "S")
                     [.call (.int 32 true) (.var "unwrap" (.func [.app (.enum "Opt") [.int 32 true]] (.int 32 true)))
                       [.constr (.enum "Opt" "Some" 1) (.app (.enum "Opt") [.int 32 true]) [.prim (.int 32 true 7)]]]])
-                (.call .unit (.var "string_println" (.func [.string] .unit))
-                  [.traitCall "A" "foo" .string (.var "s" (.struct "S")) []]) }] }
+                (.letE "u" (.call .unit (.var "string_println" (.func [.string] .unit))
+                  [.traitCall "A" "foo" .string (.var "s" (.struct "S")) []])
+                 (.call .unit (.var "string_println" (.func [.string] .unit))
+                  [.call .string (.var "viaA" (.func [.struct "S"] .string)) [.var "s" (.struct "S")]])) }] }
 
 def tsS : Sig := { tsSig with fns := tsProg.fns }
 
 example : okProg tsS tsProg = true := by decide +kernel
 -- closures and function values: `let k = 3; let add = |x: int32| x + k; let f = ident; add(f(4))`
-example : okE tsProg [] []
+example : okE tsS tsProg [] []
     (.letE "k" (.prim (.int 32 true 3))
       (.letE "add" (.closure (.func [.int 32 true] (.int 32 true)) [("x", .int 32 true)]
           (.bin .add (.int 32 true) (.var "x" (.int 32 true)) (.var "k" (.int 32 true))))
@@ -268,9 +277,12 @@ example : okE tsProg [] []
             [.call (.int 32 true) (.var "f" (.func [.int 32 true] (.int 32 true))) [.prim (.int 32 true 4)]])))) = true := by
   decide +kernel
 example : wtProg tsS = true := by decide +kernel
-example : (run 100 tsProg).out = "7\n" ∧ (run 100 tsProg).status = "ok" := by decide +kernel
+example : (run 100 tsProg).out = "7\n7\n" ∧ (run 100 tsProg).status = "ok" := by decide +kernel
+example : implsOk tsS tsProg = true := by decide +kernel
+-- the dispatch-table check refuses a row whose function has another receiver type than its key says
+example : implsOk tsS { tsProg with impls := [("A", "int32", "foo", "trait_impl#A#S#foo")] } = false := by decide +kernel
 -- what the fragment refuses: the field read outside the arm that established the variant
-example : okE tsProg [("o", .app (.enum "Opt") [.int 32 true])] []
+example : okE tsS tsProg [("o", .app (.enum "Opt") [.int 32 true])] []
     (.cget (.enum "Opt" "Some" 1) 0 (.int 32 true) (.var "o" (.app (.enum "Opt") [.int 32 true]))) = false := by decide +kernel
 -- ... which `Wt` accepts although `Sem` would read a field of `None`
 example : wt tsS [("o", .app (.enum "Opt") [.int 32 true])]
